@@ -167,6 +167,19 @@ def pass_literals(t):
     for r in t.rules:
         if r.test is None:
             continue
+        # the whole test as one string (context, bracket content and what follows, in order): the rule then matches
+        whole_c, whole_d, okc, okd = [], [], True, True
+        for mm in re.finditer(r'"([^"]*)"|@([0-9a-f-]+)', r.test):
+            if mm.group(1) is not None:
+                cs = [ord(x) for x in mm.group(1)]
+                okd = okd and all(x in t.charcell for x in cs)
+                whole_c += cs; whole_d += [t.charcell.get(x, 0) for x in cs]
+            else:
+                ds = [sum(1 << "123456789abcdef".index(d) for d in cell if d != "0") for cell in mm.group(2).split("-")]
+                okc = okc and all(d in inv for d in ds)
+                whole_d += ds; whole_c += [inv.get(d, 0) for d in ds]
+        if len(whole_c) > 1 and okc and okd:
+            lit_c.append(whole_c); lit_d.append(whole_d)
         for mm in re.finditer(r'"([^"]*)"|@([0-9a-f-]+)', r.test + " " + (r.action or "")):
             if mm.group(1) is not None:
                 cs = [ord(x) for x in mm.group(1)]
